@@ -5,9 +5,9 @@ from sa.terms import mk, ZERO, ONE, TRUE, show, walk, map_term, num
 from .common import engine, inventory, prove, analysis_or_fail
 from . import speedprofile as SP
 
-LEVEL = 'necessary-conditions'
+LEVEL = 'other'
 MANIFEST = {
-    'category': 'lint',
+    'category': 'other',
     'engine': 'svn',
     'technique': ('symbolic value numbering: spec-term equivalence for min_speed, aggregate handed to insert_speed by add_speeds '
                   '(offset shift, tail-end extension by train length, speed_max filter, parameter gating), seed of the profile, and '
